@@ -20,24 +20,24 @@ func H_C01_snapshot() {
 	c := WithConfig(Dir(dir), Filename("f"))
 	n := vxrt.Len("n", 0, vxrt.Param("n", 4))
 	body := vxrt.Text("body", n)
-	vxrt.Assume(noCRAtEOL(body))
-	vxrt.Assume(plainText(body))
+	vxrt.Assume(vxNoCRAtEOL(body))
+	vxrt.Assume(vxPlainText(body))
 
-	t1 := newT("TestA")
+	t1 := vxNewT("TestA")
 	c.MatchSnapshot(t1, body)
 	t1.end()
 	vxrt.Assert(len(t1.errors) == 0, "C01:record-no-error")
 	vxrt.Assert(len(t1.logs) == 1, "C01:record-logs-added")
 	stamp := vxrt.FSStamp()
-	before := dumpDir(dir)
+	before := vxDumpDir(dir)
 
-	t2 := newT("TestA")
+	t2 := vxNewT("TestA")
 	c.MatchSnapshot(t2, body)
 	t2.end()
 	vxrt.Assert(len(t2.errors) == 0, "C01:replay-no-error")
 	vxrt.Assert(len(t2.logs) == 0, "C01:replay-no-log")
 	vxrt.Assert(vxrt.FSStamp() == stamp, "C01:replay-no-write")
-	vxrt.Assert(vxrt.Eq(dumpDir(dir), before), "C01:replay-dir-unchanged")
+	vxrt.Assert(vxrt.Eq(vxDumpDir(dir), before), "C01:replay-dir-unchanged")
 }
 
 // H_C01_json: record one MatchJSON document, then replay it.
@@ -45,23 +45,23 @@ func H_C01_json() {
 	vxrt.CI(false)
 	dir := vxrt.Dir()
 	c := WithConfig(Dir(dir), Filename("f"))
-	doc := jsonTemplate("doc", vxrt.Param("n", 2))
+	doc := vxJsonTemplate("doc", vxrt.Param("n", 2))
 
-	t1 := newT("TestA")
+	t1 := vxNewT("TestA")
 	c.MatchJSON(t1, doc)
 	t1.end()
 	vxrt.Assert(len(t1.errors) == 0, "C01:record-no-error")
 	vxrt.Assert(len(t1.logs) == 1, "C01:record-logs-added")
 	stamp := vxrt.FSStamp()
-	before := dumpDir(dir)
+	before := vxDumpDir(dir)
 
-	t2 := newT("TestA")
+	t2 := vxNewT("TestA")
 	c.MatchJSON(t2, doc)
 	t2.end()
 	vxrt.Assert(len(t2.errors) == 0, "C01:replay-no-error")
 	vxrt.Assert(len(t2.logs) == 0, "C01:replay-no-log")
 	vxrt.Assert(vxrt.FSStamp() == stamp, "C01:replay-no-write")
-	vxrt.Assert(vxrt.Eq(dumpDir(dir), before), "C01:replay-dir-unchanged")
+	vxrt.Assert(vxrt.Eq(vxDumpDir(dir), before), "C01:replay-dir-unchanged")
 }
 
 // H_C01_mixed: a file with an optional pre-existing third-party entry; two
@@ -75,9 +75,9 @@ func H_C01_mixed() {
 	n := vxrt.Param("n", 3)
 	ascii := vxrt.Param("ascii", 1) == 1
 	if vxrt.Bool("pre-existing-entry") {
-		body := symText("pre", vxrt.Param("m", 2), ascii)
-		vxrt.Assume(noTerminatorLine(body))
-		writeFile(dir+"/f.snap", frame("TestZ - 1", body))
+		body := vxSymText("pre", vxrt.Param("m", 2), ascii)
+		vxrt.Assume(vxNoTerminatorLine(body))
+		vxWriteFile(dir+"/f.snap", vxFrame("TestZ - 1", body))
 	}
 	names := []string{"TestA", []string{"TestA/b", "TestAB"}[vxrt.Choice("second-name", 2)]}
 	ncalls := []int{vxrt.Len("calls-1", 1, 2), vxrt.Len("calls-2", 0, 1)}
@@ -90,19 +90,19 @@ func H_C01_mixed() {
 		for k := 0; k < ncalls[ti]; k++ {
 			kind := vxrt.Choice("kind", 3)
 			var text string
-			if kind == kindJSON {
-				text = jsonTemplate("json", 1)
+			if kind == vxKindJSON {
+				text = vxJsonTemplate("json", 1)
 			} else {
-				text = symText("text", n, ascii)
+				text = vxSymText("text", n, ascii)
 			}
 			plan[ti] = append(plan[ti], call{kind, text})
 		}
 	}
 	run := func(record bool) {
 		for ti := 0; ti < 2; ti++ {
-			t := newT(names[ti])
+			t := vxNewT(names[ti])
 			for _, cl := range plan[ti] {
-				doCall(c, t, cl.kind, cl.text)
+				vxDoCall(c, t, cl.kind, cl.text)
 			}
 			t.end()
 			if record {
@@ -115,10 +115,10 @@ func H_C01_mixed() {
 	}
 	run(true)
 	stamp := vxrt.FSStamp()
-	before := dumpDir(dir)
+	before := vxDumpDir(dir)
 	run(false)
 	vxrt.Assert(vxrt.FSStamp() == stamp, "C01:replay-no-write")
-	vxrt.Assert(vxrt.Eq(dumpDir(dir), before), "C01:replay-dir-unchanged")
+	vxrt.Assert(vxrt.Eq(vxDumpDir(dir), before), "C01:replay-dir-unchanged")
 }
 
 // H_C01_many: more than nine calls in one test ([T - 1] is a prefix of [T - 10]);
@@ -128,15 +128,15 @@ func H_C01_many() {
 	dir := vxrt.Dir()
 	c := WithConfig(Dir(dir), Filename("f"))
 	n := vxrt.Param("n", 2)
-	b1 := symText("body-1", n, true)
-	b10 := symText("body-10", n, true)
+	b1 := vxSymText("body-1", n, true)
+	b10 := vxSymText("body-10", n, true)
 	vals := make([]string, 11)
 	for k := range vals {
-		vals[k] = "v" + itoa(k)
+		vals[k] = "v" + vxItoa(k)
 	}
 	vals[0], vals[9] = b1, b10
 	for round := 0; round < 2; round++ {
-		t := newT("TestT")
+		t := vxNewT("TestT")
 		stamp := vxrt.FSStamp()
 		for k := range vals {
 			c.MatchSnapshot(t, vals[k])
@@ -161,11 +161,11 @@ func H_C01_longline() {
 	for i := range filler {
 		filler[i] = 'x'
 	}
-	head := symText("head", 1, true)
-	tail := symText("tail", 1, true)
+	head := vxSymText("head", 1, true)
+	tail := vxSymText("tail", 1, true)
 	val := head + string(filler) + tail
 	for round := 0; round < 2; round++ {
-		t := newT("TestL")
+		t := vxNewT("TestL")
 		c.MatchSnapshot(t, val)
 		t.end()
 		if round == 0 {
@@ -185,15 +185,15 @@ func H_C01_shadow() {
 	c := WithConfig(Dir(dir), Filename("f"))
 	d := vxrt.Text("digit", 1)
 	vxrt.Assume(vxrt.And(d[0] >= '0', d[0] <= '9'))
-	rest := symText("rest", vxrt.Param("n", 2), true)
+	rest := vxSymText("rest", vxrt.Param("n", 2), true)
 	xText := "[TestY - " + d + "]\n" + rest
-	yText := symText("y-value", 1, true)
+	yText := vxSymText("y-value", 1, true)
 	if vxrt.Param("known_K2", 1) == 1 {
 		// known finding K2: a stored body has a whole line equal to the header of a slot addressed in the same file
-		vxrt.Assume(vxrt.Not(hasLine(xText, "[TestY - 1]")))
+		vxrt.Assume(vxrt.Not(vxHasLine(xText, "[TestY - 1]")))
 	}
 	for round := 0; round < 2; round++ {
-		tx, ty := newT("TestX"), newT("TestY")
+		tx, ty := vxNewT("TestX"), vxNewT("TestY")
 		c.MatchSnapshot(tx, xText)
 		tx.end()
 		c.MatchSnapshot(ty, yText)
@@ -215,13 +215,13 @@ func H_C01_struct() {
 	vxrt.YAMLAssume(true)
 	dir := vxrt.Dir()
 	c := WithConfig(Dir(dir), Filename("f"))
-	val := structText("value", vxrt.Param("lines", 3))
+	val := vxStructText("value", vxrt.Param("lines", 3))
 	kind := vxrt.Choice("kind", 2)
-	writeFile(dir+"/f.snap", frame("TestZ - 1", "z"))
+	vxWriteFile(dir+"/f.snap", vxFrame("TestZ - 1", "z"))
 	for round := 0; round < 2; round++ {
-		t := newT("TestA")
+		t := vxNewT("TestA")
 		stamp := vxrt.FSStamp()
-		doCall(c, t, kind, val)
+		vxDoCall(c, t, kind, val)
 		t.end()
 		if round == 0 {
 			vxrt.Assert(len(t.errors) == 0 && len(t.logs) == 1, "C01:record")
@@ -231,7 +231,7 @@ func H_C01_struct() {
 			vxrt.Assert(vxrt.FSStamp() == stamp, "C01:replay-no-write")
 		}
 	}
-	got, _, err := refPrev("[TestZ - 1]", dir+"/f.snap")
+	got, _, err := vxRefPrev("[TestZ - 1]", dir+"/f.snap")
 	vxrt.Assert(err == nil && got == "z", "C01:bystander-entry-intact")
 }
 
@@ -251,14 +251,14 @@ func H_C01_twofiles() {
 		api[k] = vxrt.Choice("api", 3)
 	}
 	for round := 0; round < 3; round++ {
-		t := newT("TestT")
+		t := vxNewT("TestT")
 		stamp := vxrt.FSStamp()
 		for k := 0; k < calls; k++ {
 			c := cf
 			if which[k] == 1 {
 				c = cg
 			}
-			val := `"v` + itoa(k) + `"`
+			val := `"v` + vxItoa(k) + `"`
 			switch api[k] {
 			case 0:
 				c.MatchSnapshot(t, val)
@@ -271,6 +271,42 @@ func H_C01_twofiles() {
 		t.end()
 		if round == 0 {
 			vxrt.Assert(len(t.errors) == 0 && len(t.logs) == calls, "C01:record")
+		} else {
+			vxrt.Assert(len(t.errors) == 0 && len(t.logs) == 0, "C01:replay-no-error")
+			vxrt.Assert(vxrt.FSStamp() == stamp, "C01:replay-no-write")
+		}
+	}
+}
+
+// H_C01_bigfile: a snapshot file that grows far beyond any reader buffer (40 entries of four
+// 2 KB lines each, about 330 KB) is recorded by one test and replayed by the next execution:
+// every call passes silently and nothing is written. One byte in every body is symbolic.
+func H_C01_bigfile() {
+	vxrt.CI(false)
+	dir := vxrt.Dir()
+	c := WithConfig(Dir(dir), Filename("f"))
+	entries := vxrt.Param("entries", 40)
+	lineLen := vxrt.Param("linelen", 2047)
+	mark := vxrt.Text("mark", 1)
+	vxrt.Assume(vxrt.And(mark[0] >= 'a', mark[0] <= 'z'))
+	vals := make([]string, entries)
+	for k := range vals {
+		line := make([]byte, lineLen)
+		for i := range line {
+			line[i] = byte('A' + (k+i)%26)
+		}
+		l := string(line)
+		vals[k] = "entry " + vxItoa(k) + " " + mark + "\n" + l + "\n" + l + "\n" + l + "\nend " + vxItoa(k)
+	}
+	for round := 0; round < 2; round++ {
+		t := vxNewT("TestBig")
+		stamp := vxrt.FSStamp()
+		for k := range vals {
+			c.MatchSnapshot(t, vals[k])
+		}
+		t.end()
+		if round == 0 {
+			vxrt.Assert(len(t.errors) == 0 && len(t.logs) == entries, "C01:record")
 		} else {
 			vxrt.Assert(len(t.errors) == 0 && len(t.logs) == 0, "C01:replay-no-error")
 			vxrt.Assert(vxrt.FSStamp() == stamp, "C01:replay-no-write")
